@@ -18,6 +18,16 @@ CLAIMS = {
             'composition, Z ordering, each word equals the firmware-side logical value of the tracked position; '
             'writer census of the episode flag',
             'real arithmetic; firmware convention logical*unit+offsets; relative-mode exit is a recorded known finding'),
+    'C04': ('typestate analysis: the abstract paths of the handlers are the transition relation of a finite machine over '
+            '(excluding, retraction record) x ghost printer (E-register offset, retracted length) x file state; the meaning of '
+            'generated G92 E / G1 E pairs is derived from their polynomial values; exhaustive breadth-first exploration under '
+            'the environment of the quantifier; plus restore pairing and unit algebra of RetractionState._addCommands',
+            'absolute E mode, equal-length E-only or firmware cycles; two recorded known findings (dropped retraction outside a '
+            'region, owed recovery computed from the advanced E)'),
+    'C05': ('the same typestate machine with the retraction-depth invariants (never deeper than one cycle, never shallower than '
+            'the file, differs only while a recovery is owed, zero when an extruding move is forwarded), firmware parity and '
+            'parameter provenance, regex language inclusion for the parameter extraction',
+            'matched equal-length cycles, not mixed; retracting travel moves (wipes) are outside the quantifier'),
     'C06': ('abstract interpretation over an ordered-map domain of the defer/drain functions (all four modes x entry '
             'present/absent), exit/enter composition, writer census of the pending map, aliasing of script lists',
             'string content of merged commands is C07; OctoPrint settings plumbing trusted'),
